@@ -12,6 +12,9 @@ BUDGET = {
     "C02": B(1500, 20000, foreign=["ASSERT:m_activeOp"]),
     "C03": B(1500, 20000, foreign=["ASSERT:m_activeOp"]),
     "C12": B(1500, 20000, foreign=["ASSERT:m_activeOp"]),
+    "C07": B(1500, 15000),
+    "C08": B(1500, 15000),
+    "C20": B(1500, 15000),
 }
 
 SCHED = ("Each case is a small concurrent program plus a schedule: the executor interposes the pthread API, runs exactly one thread at a time "
@@ -29,6 +32,19 @@ RULE = {
     "C03": SCHED + "Programs as C01 plus an ordering shape (a holder, then requests issued one by one, each only after the previous requester is parked). "
            "Oracle over the event log: for requests X, Y with PARK(X) < CALL(Y), not both reads: RET(X) < RET(Y). Non-trivial = at least one such ordered pair "
            "and two threads parked at once.",
+    "C07": SCHED + "Programs: one owner thread over one ThreadPool with non-expiring workers (max 1-4 threads, thorough 1-6): start(new Task), start(functor, lvalue), "
+           "clear(), drain (wait until every submitted task has run or was destroyed), stop(), restart, getters; always ending in stop(). Tasks log run entry/exit "
+           "and destruction with the executing thread and yield inside run(). Oracle per task: run <= 1, destroyed exactly once and never before/during its run, "
+           "not dropped unless clear()/stop() intervened (a lost task makes drain deadlock -> reported), no run after stop() returned, submission order with one worker. "
+           "Non-trivial = >= 2 tasks and a context switch while a task was inside run().",
+    "C08": SCHED + "Programs as C07, weighted towards start*/stop with few tasks and stop/restart cycles. Oracle: no deadlock (stop() returns in every explored "
+           "interleaving); after stop(): getThreadCount()==0, every worker thread exited, no task running, every submitted task destroyed; a later start() runs its task; "
+           "getThreadCount() <= max after every op and distinct worker threads per epoch <= max. Non-trivial = stop() was called while a worker was alive and not parked "
+           "(about to wait, waking up, or running).",
+    "C20": SCHED + "Cases: callable kind (function pointer | small closure | 256-byte closure | Runnable) x 0-2 lvalue arguments x start()/constructor, started from a helper "
+           "frame that returns, after which the parent overwrites 4 KiB of stack, polls isFinished() and joins. Oracle: liveness canary (poisoned in the destructor) intact "
+           "when invoked + ASan stack-use-after-return; invoked exactly once; isFinished() true only after the callable returned; join() only after that; Runnable run once "
+           "then destroyed once; no copy of the callable outlives the Thread. Non-trivial = the new thread's first instruction ran after start() had returned.",
     "C12": SCHED + "Programs: writer-free (2-6 reader threads, incl. nested reads), free mix with few writers, rendezvous shape (a writer holds until all k>=2 readers "
            "are parked, then unlocks; the readers meet at a barrier inside the read section). Oracle: a read request during which no write request was outstanding "
            "never parks; the rendezvous never deadlocks. Non-trivial = >=2 reader threads inside the lock simultaneously (rendezvous: barrier completed).",
@@ -47,6 +63,8 @@ VS = ["controlled scheduler: pre-emption only at synchronisation operations, thr
       "glibc pthread primitives are modelled by the scheduler (mutex owner table, condvar waiter lists), not executed"]
 
 ASSUMPTIONS = {
+    "C07": VS + ["non-expiring workers (setExpiryTimeout(-1)) and a single owner thread, as quantified"], "C08": VS + ["non-expiring workers, single owner thread"],
+    "C20": VS + ["argument lvalues outlive the thread"],
     "C01": VS, "C02": VS + ["critical sections only yield, they never wait for anything else"], "C03": VS, "C12": VS,
     "C04": ["std::deque is a correct reference model", "element types are bitwise relocatable (as the quantifier requires)"],
     "C09": ["ASan/LSan report every out-of-bounds access / leaked block they observe", "moved-from shells left by pop_* are tolerated, as pinned by RingBufferEfficiencyTest"],
